@@ -72,6 +72,11 @@ pub enum Op {
     Flip { bit: u64 },
     Load { plan: String, hash_seed: u64 },
     Use { formula: F },
+    /// the caller's sets change (same labels, other sets): the next Save writes a new generation
+    NewSets { seed: u64 },
+    /// the archive's modification time is set back to that of the first acknowledged archive
+    /// (what `cp -p`, `rsync -t` or a restored backup do)
+    RestoreMtime,
     SweepSave { kind: String, stride: u64 },
     SweepLoad { kind: String, stride: u64 },
     SweepDamage { kind: String, stride: u64 },
@@ -151,6 +156,8 @@ impl Op {
             Op::Flip { bit } => json!({"op": "flip", "bit": bit}),
             Op::Load { plan, hash_seed } => json!({"op": "load", "plan": plan, "hash_seed": hash_seed}),
             Op::Use { formula } => json!({"op": "use", "formula": formula.to_json(), "text": formula.render()}),
+            Op::NewSets { seed } => json!({"op": "new_sets", "seed": seed}),
+            Op::RestoreMtime => json!({"op": "restore_mtime"}),
             Op::SweepSave { kind, stride } => json!({"op": "sweep_save", "kind": kind, "stride": stride}),
             Op::SweepLoad { kind, stride } => json!({"op": "sweep_load", "kind": kind, "stride": stride}),
             Op::SweepDamage { kind, stride } => json!({"op": "sweep_damage", "kind": kind, "stride": stride}),
@@ -166,6 +173,8 @@ impl Op {
             "flip" => Op::Flip { bit: u("bit") },
             "load" => Op::Load { plan: s("plan"), hash_seed: u("hash_seed") },
             "use" => Op::Use { formula: F::from_json(&v["formula"])? },
+            "new_sets" => Op::NewSets { seed: u("seed") },
+            "restore_mtime" => Op::RestoreMtime,
             "sweep_save" => Op::SweepSave { kind: s("kind"), stride: u("stride").max(1) },
             "sweep_load" => Op::SweepLoad { kind: s("kind"), stride: u("stride").max(1) },
             "sweep_damage" => Op::SweepDamage { kind: s("kind"), stride: u("stride").max(1) },
@@ -336,6 +345,17 @@ pub fn generate(rng: &Rng, world: &World, tier: &str) -> C16 {
     if kind == 0 {
         // a sampled faulty history
         let nops = r.range(2, 8);
+        if !cli_form && r.chance(1, 6) {
+            // two generations of results written to the same path within one process
+            ops.push(Op::Save { plan: String::new(), pre: Pre::Absent, hash_seed: h.next_u64() });
+            ops.push(Op::Load { plan: String::new(), hash_seed: h.next_u64() });
+            ops.push(Op::NewSets { seed: r.next_u64() % 1_000_000 });
+            ops.push(Op::Save { plan: String::new(), pre: Pre::Absent, hash_seed: h.next_u64() });
+            if r.chance(2, 3) {
+                ops.push(Op::RestoreMtime);
+            }
+            ops.push(Op::Load { plan: String::new(), hash_seed: h.next_u64() });
+        }
         let clean_prefix = r.chance(1, 2);
         for step in 0..nops {
             let forced = if clean_prefix && step < 3 { Some(step) } else { None };
@@ -887,7 +907,8 @@ pub fn check(world: &World, sc: &C16, sandbox: &str) -> Report {
     };
     let dir_part = if sc.relative_path { String::new() } else { format!("{io_dir}/") };
     let path = if sc.nested_path { format!("{dir_part}new/dir/results.zip") } else { format!("{dir_part}results.zip") };
-    let cx = Ctx16 { model_text: bn.to_string(), bn, graph, k: world.k, inmem, path, io_dir, clock: sc.clock.clone() };
+    let mut cx = Ctx16 { model_text: bn.to_string(), bn, graph, k: world.k, inmem, path, io_dir, clock: sc.clock.clone() };
+    let mut first_mtime: Option<std::time::SystemTime> = None;
     rep.probe("labels", cx.inmem.len() as u64);
     for (l, set) in &cx.inmem {
         let n = set.as_bdd().to_string().len() as u64;
@@ -948,6 +969,9 @@ pub fn check(world: &World, sc: &C16, sandbox: &str) -> Report {
                         }
                         cx.verify_acknowledged(&sc.formulae, sc.cli_form, &mut rep, &how);
                         disk = Disk::Good;
+                        if first_mtime.is_none() {
+                            first_mtime = std::fs::metadata(&cx.path).and_then(|m| m.modified()).ok();
+                        }
                     }
                     Outcome::Err(e) => {
                         if fired.is_empty() && !dir_in_the_way {
@@ -955,7 +979,7 @@ pub fn check(world: &World, sc: &C16, sandbox: &str) -> Report {
                         } else {
                             rep.probe("saves_failed_under_fault", 1);
                         }
-                        disk = if pre == Some(&Pre::LargerValid) { Disk::Stale } else { Disk::Suspect };
+                        disk = if pre == Some(&Pre::LargerValid) && fired.iter().any(|(n, _)| n == "fault_open_error") { Disk::Stale } else { Disk::Suspect };
                     }
                     Outcome::Panic(p) => {
                         if fired.is_empty() && !dir_in_the_way {
@@ -963,7 +987,7 @@ pub fn check(world: &World, sc: &C16, sandbox: &str) -> Report {
                         } else {
                             rep.probe("saves_panicked_under_fault", 1);
                         }
-                        disk = if pre == Some(&Pre::LargerValid) { Disk::Stale } else { Disk::Suspect };
+                        disk = if pre == Some(&Pre::LargerValid) && fired.iter().any(|(n, _)| n == "fault_open_error") { Disk::Stale } else { Disk::Suspect };
                     }
                 }
                 loaded = None;
@@ -1086,6 +1110,31 @@ pub fn check(world: &World, sc: &C16, sandbox: &str) -> Report {
                         _ => {}
                     }
                 }
+            }
+            Op::NewSets { seed } => {
+                if !sc.cli_form {
+                    let labels: Vec<String> = cx.inmem.keys().cloned().collect();
+                    for (i, l) in labels.iter().enumerate() {
+                        if let Ok(s2) = build_set(&cx.graph, &SetSpec::Dnf(seed + i as u64)) {
+                            cx.inmem.insert(l.clone(), s2);
+                        }
+                    }
+                    rep.probe("set_generations_changed", 1);
+                    if disk == Disk::Good {
+                        // the archive on disk is a faithful copy of the *previous* generation
+                        disk = Disk::Stale;
+                    }
+                    loaded = None;
+                }
+                rep.event(format!("new_sets {seed}"));
+            }
+            Op::RestoreMtime => {
+                if let (Some(t), Ok(f)) = (first_mtime, std::fs::OpenOptions::new().write(true).open(&cx.path)) {
+                    if f.set_modified(t).is_ok() {
+                        rep.probe("archive_mtime_restored", 1);
+                    }
+                }
+                rep.event("restore_mtime".to_string());
             }
             Op::SweepSave { kind, stride } => {
                 // measure the fault-free save first
